@@ -282,8 +282,8 @@ fn http(port: u16, method: &str, path: &str) -> Result<(u16, Vec<u8>), String> {
         eprintln!("{:?} {} {}", Instant::now(), method, path);
     }
     let addr: SocketAddr = format!("127.0.0.1:{}", port).parse().unwrap();
-    let mut s = TcpStream::connect_timeout(&addr, Duration::from_secs(2)).map_err(|e| format!("connect: {}", e))?;
-    s.set_read_timeout(Some(Duration::from_secs(8))).ok();
+    let mut s = TcpStream::connect_timeout(&addr, Duration::from_secs(6)).map_err(|e| format!("connect: {}", e))?;
+    s.set_read_timeout(Some(Duration::from_secs(20))).ok();
     s.set_write_timeout(Some(Duration::from_secs(4))).ok();
     let req = format!("{} {} HTTP/1.0\r\nHost: localhost\r\nContent-Length: 0\r\nConnection: close\r\n\r\n", method, path);
     s.write_all(req.as_bytes()).map_err(|e| format!("write: {}", e))?;
@@ -351,7 +351,7 @@ fn start_server(kind: &str, spec: &str) -> Result<(KillOnDrop, u16), String> {
             .map_err(|e| e.to_string())?;
         let mut child = KillOnDrop(child);
         let t0 = Instant::now();
-        while t0.elapsed() < Duration::from_secs(4) {
+        while t0.elapsed() < Duration::from_secs(12) {
             if let Ok(Some(st)) = child.0.try_wait() {
                 last = format!("server child exited early: {:?}", st);
                 break;
@@ -588,7 +588,7 @@ fn explorer_session(kind: &str, spec: &str, e: &Explicit, bfs: &BfsRef, r: &mut 
     let expect_done0 = e.props.is_empty() || init_b.is_empty();
     let mut st0 = None;
     let t0 = Instant::now();
-    while t0.elapsed() < Duration::from_secs(3) {
+    while t0.elapsed() < Duration::from_secs(10) {
         match get("/.status") {
             Ok((200, body)) => {
                 if let Ok(v) = serde_json::from_slice::<serde_json::Value>(&body) {
@@ -773,7 +773,7 @@ fn explorer_session(kind: &str, spec: &str, e: &Explicit, bfs: &BfsRef, r: &mut 
     }
     let t0 = Instant::now();
     let mut fin = None;
-    while t0.elapsed() < Duration::from_secs(8) {
+    while t0.elapsed() < Duration::from_secs(20) {
         if let Ok((200, body)) = get("/.status") {
             if let Ok(v) = serde_json::from_slice::<serde_json::Value>(&body) {
                 if v.get("done").and_then(|x| x.as_bool()) == Some(true) {
@@ -1037,7 +1037,7 @@ fn on_demand_case(g0: &GraphModel, r: &mut Rng, out: &mut Out, threads: usize) {
         for fp in &reqs {
             checker.check_fingerprint(nz(*fp));
         }
-        let ok = wait_until(Duration::from_secs(3), || acc().len() >= expect.len());
+        let ok = wait_until(Duration::from_secs(10), || acc().len() >= expect.len());
         std::thread::sleep(Duration::from_millis(15)); // anything evaluated beyond the requests would show up now
         let seen = acc();
         if !ok {
@@ -1062,7 +1062,7 @@ fn on_demand_case(g0: &GraphModel, r: &mut Rng, out: &mut Out, threads: usize) {
         }
         checker.run_to_completion();
     }
-    if !wait_until(Duration::from_secs(6), || checker.is_done()) {
+    if !wait_until(Duration::from_secs(15), || checker.is_done()) {
         out.v("hang", &format!("on-demand checker not done 6 s after run_to_completion: {} threads={}", g.sx(), threads));
         std::mem::forget(checker);
         return;
@@ -1075,7 +1075,7 @@ fn on_demand_case(g0: &GraphModel, r: &mut Rng, out: &mut Out, threads: usize) {
         discs.sort();
         let _ = tx.send((c.unique_state_count(), c.state_count(), c.max_depth(), discs));
     });
-    let (uc, sc, _md, discs) = match rx.recv_timeout(Duration::from_secs(6)) {
+    let (uc, sc, _md, discs) = match rx.recv_timeout(Duration::from_secs(15)) {
         Ok(x) => x,
         Err(_) => {
             out.v("hang", &format!("join() of an on-demand checker did not return within 6 s: {} threads={}", g.sx(), threads));
